@@ -121,6 +121,13 @@ func runC08(r *core.Run) {
 		if rr.Chance(2, 3) {
 			c.Pre = gen.BinStr(gen.Junk(rr, &gen.JunkCfg{Binary: true}, rr.Intn(4), eol))
 		}
+		switch rr.Intn(8) {
+		case 0:
+			// text that looks like the start of a report right before the real one
+			c.Pre += gen.BinStr("==================" + eol)
+		case 1:
+			c.Pre += gen.BinStr("==================" + eol + "WARNING: DATA RACE" + eol)
+		}
 		if !c.Race.NoFinalEOL {
 			switch rr.Intn(4) {
 			case 0:
